@@ -315,7 +315,7 @@ def comes_from_call(fn, operand, name_pattern, transparent=TRANSPARENT):
 
 
 def decode_fmt_template(v):
-    """decode core::fmt's byte template into [('lit', str) | ('arg', index_or_None)]; None if malformed"""
+    """decode core::fmt's byte template into [('lit', str) | ('arg', index_or_None, has_spec)]; None if malformed"""
     if isinstance(v, str):
         b = v.encode("utf-8")
     else:
@@ -343,7 +343,7 @@ def decode_fmt_template(v):
             if n & 8:
                 idx = b[i] | (b[i + 1] << 8)
                 i += 2
-            out.append(("arg", idx))
+            out.append(("arg", idx, bool(n & 7)))      # third element: the placeholder carries flags / width / precision
         else:
             return None
     return None
